@@ -258,6 +258,72 @@ def r17_2(ctx):
         sl = r_c04._len_of(cb, op)
         return sl is not None and exact_slice_root(sl)
 
+    # vectors known to hold exactly buffer_size bytes when the reader is called: every path to the read passes a
+    # `v.resize(buffer_size, _)`, or a `v.truncate(buffer_size)` taken where `v.len() >= buffer_size`, or skips both
+    # over the edge on which `v.len() == buffer_size`
+    def _vec_field(op):
+        fs = [q[1] for q in trace(cb, op).steps if q[0] == "field"]
+        return fs[0] if fs else None
+
+    def _len_cmp_edges(fld):
+        """{'ge': [...], 'eq': [...]}: CFG edges on which len(self.<fld>) >= / == buffer_size is known."""
+        out = {"ge": [], "eq": []}
+        for sb_ in sorted(cb.reach()):
+            sw_ = cb.blocks[sb_]["term"]
+            if sw_["k"] != "switch" or not is_place(sw_["discr"]) or sw_["discr"]["p"]["pr"]:
+                continue
+            zero_ = [tg for v_, tg in sw_["targets"] if v_ == 0]
+            if not zero_:
+                continue
+            for st_ in cb.blocks[sb_]["stmts"]:
+                if not (st_["k"] == "assign" and not st_["p"]["pr"] and st_["p"]["l"] == sw_["discr"]["p"]["l"] and st_["rv"]["k"] == "binop" and st_["rv"]["op"] in ("Eq", "Ne", "Lt", "Ge", "Le", "Gt")):
+                    continue
+                opn = st_["rv"]["op"]
+                for x_, y_, flip in ((st_["rv"]["a"], st_["rv"]["b"], False), (st_["rv"]["b"], st_["rv"]["a"], True)):
+                    if not is_bufsize0(y_):
+                        continue
+                    lt_ = trace(cb, x_)
+                    if not (lt_.origin and lt_.origin[0] == "call" and (fn_of(lt_.origin[2]) or {}).get("name") == "len" and "Vec" in (fn_of(lt_.origin[2]) or {}).get("def", "") and lt_.origin[2]["args"] and _vec_field(lt_.origin[2]["args"][0]) == fld):
+                        continue
+                    t_e, f_e = (sb_, sw_["otherwise"]), (sb_, zero_[0])
+                    rel = opn if not flip else {"Lt": "Gt", "Gt": "Lt", "Le": "Ge", "Ge": "Le", "Eq": "Eq", "Ne": "Ne"}[opn]
+                    # rel: len REL size
+                    if rel == "Eq":
+                        out["eq"].append(t_e)
+                    elif rel == "Ne":
+                        out["eq"].append(f_e)
+                    elif rel == "Lt":
+                        out["ge"].append(f_e)
+                    elif rel == "Ge":
+                        out["ge"].append(t_e)
+        return out
+
+    exact_fields = set()
+    _cands = {}
+    for bb_, t_ in cb.calls():
+        f_ = fn_of(t_) or {}
+        if f_.get("name") in ("resize", "truncate") and "Vec" in f_.get("def", "") and len(t_["args"]) >= 2 and is_bufsize(t_["args"][1]):
+            fld_ = _vec_field(t_["args"][0])
+            if fld_:
+                _cands.setdefault(fld_, []).append((bb_, f_["name"]))
+    for fld_, cs_ in _cands.items():
+        ce_ = _len_cmp_edges(fld_)
+        est_blocks = [bb_ for bb_, nm_ in cs_ if nm_ == "resize"]
+        for bb_, nm_ in cs_:
+            if nm_ == "truncate" and ce_["ge"] and bb_ not in cb.reachable_from(0, removed_edges=ce_["ge"]):
+                est_blocks.append(bb_)
+        if rbb not in cb.reachable_from(0, removed_nodes=est_blocks, removed_edges=ce_["eq"]):
+            exact_fields.add(fld_)
+
+    is_bufsize1 = is_bufsize
+
+    def is_bufsize(op):  # noqa: F811
+        if is_bufsize1(op):
+            return True
+        # `v.len()` of a vector that holds exactly buffer_size bytes (see above)
+        lt_ = trace(cb, op)
+        return bool(lt_.origin and lt_.origin[0] == "call" and (fn_of(lt_.origin[2]) or {}).get("name") == "len" and "Vec" in (fn_of(lt_.origin[2]) or {}).get("def", "") and lt_.origin[2]["args"] and _vec_field(lt_.origin[2]["args"][0]) in exact_fields)
+
     def is_readlen(op):
         tr = trace(cb, op)
         return bool(tr.origin and tr.origin[0] == "call" and tr.origin[2] is rt and any(s[0] == "downcast" and s[1] == "Ok" for s in tr.steps))
@@ -317,6 +383,9 @@ def r17_2(ctx):
             sfld = [s[1] for s in s_tr.steps if s[0] == "field"]
             ok_src = bool(sfld) and any(r[1] == sfld[0] and cb.dominates(r[0], bb) and cb.dominates(r[0], rbb) for r in resizes)
             det_src = f"source = self.{sfld[:1]} resized to buffer_size before the read"
+            if not ok_src and sfld and sfld[0] in exact_fields:
+                ok_src = True
+                det_src = f"source = self.{sfld[:1]}, brought to exactly buffer_size bytes on every path to the read (resize when shorter, truncate when longer)"
             if not ok_src and sfld and any(r[1] == sfld[0] for r in resizes):
                 # `if v.len() != buffer_size { v.resize(buffer_size, 0) }`: the resize is skipped only over the edge on
                 # which the vector already has exactly that length
@@ -398,7 +467,7 @@ def r17_3(ctx):
     ok = bool(src and "IndexMut" in src.get("trait", "") and "Vec" in src.get("self_ty", ""))
     ctx.ob("reader-gets-bounce-slice", ok, site(cb, rd[0]), "Read::read is handed `&mut bouncer[..]`" if ok else f"Read::read is handed memory from {src.get('def') if src else tr.origin}")
     # chunk reader
-    crs = [b for b in lib.bodies if b.raw.get("impl_trait") == "std::io::Read" and b.name == "read" and any((fn_of(t) or {}).get("name") == "extend_from_slice" for _, t in b.calls())]
+    crs = common.chunk_readers(ctx.facts)
     ctx.ob("chunk-reader-found", len(crs) == 1, "lib", f"{len(crs)} capturing reader(s) using extend_from_slice")
     for b in crs:
         for bb, t in b.calls():
